@@ -24,22 +24,24 @@ ASSUMPTIONS = [
     "c06_nsent_bound, c06_lifetime: loss recovery selects chunks only while no message of the stream is partly in flight "
     "(pr_run_whole); without it the statements are refuted in the model (c06_nsent_bound_refuted, c06_lifetime_refuted) and "
     "on the implementation: known finding D21",
-    "c06_lifetime ('at most one transmission at an age >= L') additionally: a chunk whose retransmit flag is set is not also "
-    "fast-retransmitted; without it the bound is two (c06_lifetime_two; witness c06_lifetime_marked_and_fast_refuted)",
+    "since fix 3b069d1 (finding D30) a marked chunk whose message has been abandoned is not retransmitted: the gather clears "
+    "its mark without a log line; which of these chunks a gather visited is read from the state after the event and "
+    "constrained by the model step PrUnmark (marked chunk of an abandoned message only)",
     "retransmission limit 0 <= N < 2^32 - 1; the reliability policy of a stream does not change while its chunks are in flight",
     "receiver-side ordered-subsequence clause under the span hypothesis of RQSafety (SSNs held together within 2^15)",
 ]
 LEVEL_TEXT = ("Coq theorems over all histories of sends, RACK/PTO/T3 markings, retransmissions, fast retransmissions and SACKs "
-              "(arbitrary oracle choices within the constraints the code enforces): nSent <= N+1 under a retransmission limit "
-              "(tight), at most one transmission at an age >= the lifetime, a late transmission abandons the message, DCEP "
-              "chunks are never abandoned and DCEP is forced ordered by packetize, abandoned chunks are never selected by loss "
-              "recovery; receiver side (cited from RQSafety): at most once, one B..E run of one message, ordered subsequence. "
+              "(arbitrary oracle choices within the constraints the code enforces): nSent <= max(N,1) <= N+1 under a "
+              "retransmission limit (tight), at most one transmission at an age >= the lifetime, a late transmission abandons the "
+              "message, DCEP chunks are never abandoned and DCEP is forced ordered by packetize, abandoned chunks are never "
+              "selected by loss recovery nor retransmitted (fix 3b069d1); receiver side (cited from RQSafety): at most once, one B..E run of one message, ordered subsequence. "
               "The model is tied to the code by step-commuting records from simulated associations with partial-reliability "
               "streams: in-flight table (nSent, acked, retransmit, firstSent), message flags, both ack points and emitted "
               "FORWARD-TSN chunks are compared after every harness event, replayed from the exact primitive step list.")
 LEVEL_NOTE = ("Trusted: Coq kernel, hand model PR.v, extraction, simulator + log-derived step lists. Wire monitors (transmissions "
               "per TSN against the stream's policy, delivered messages against the written ones) search for concrete failing "
-              "histories; D21 (fragmented message partly in the pending queue) is a recorded known finding.")
+              "histories; D21 (fragmented message partly in the pending queue) is a recorded known finding; D30 (abandoned chunk "
+              "retransmitted) was found by a model refutation, replayed by a targeted scenario and is fixed.")
 TECHNIQUE = "Coq proof (invariants over histories) + step-commuting correspondence on simulated associations + wire monitors"
 
 
